@@ -28,6 +28,8 @@ func main() {
 		c34(*seed, *n, *ops)
 	case "c28":
 		c28(*seed, *n, *ops)
+	case "c36renew":
+		c36renew(*seed, *n)
 	default:
 		fmt.Fprintln(os.Stderr, "usage: sysharness [-seed N] [-n N] c37|c34|c28|c36 ...")
 		os.Exit(2)
